@@ -74,6 +74,8 @@ class MemFS:
                 continue
             if part == "..":
                 cur = posixpath.dirname(cur) if cur else ""
+                if cur == "/":
+                    cur = ""  # (the root: the next component is appended as "/name")
                 continue
             cur = cur + "/" + part
             if cur in self.links:
@@ -99,6 +101,8 @@ class MemFS:
                 continue
             if part == "..":
                 cur = posixpath.dirname(cur) if cur else ""
+                if cur == "/":
+                    cur = ""  # (the root: the next component is appended as "/name")
                 continue
             cur = cur + "/" + part
             last = i == len(parts) - 1
